@@ -17,6 +17,7 @@ func genC30(seed uint64) *Plan {
 	k["die_after"] = g.pick(-1, -1, -1, g.rng(1, 20))
 	k["signallers"] = g.rng(2, 4)
 	k["per_signaller"] = g.rng(3, 12)
+	k["hard_pct"] = g.pick(0, 0, 20, 50)
 	return g.P
 }
 
